@@ -60,6 +60,7 @@ impl ParseData for FromAttributesOptions {
 
     fn validate_body(&self, errors: &mut crate::error::Accumulator) {
         self.base.validate_body(errors);
+        self.base.validate_tuple_struct(true, errors);
     }
 }
 
